@@ -43,6 +43,8 @@ pub mod server;
 #[cfg(test)]
 pub(crate) mod test_utils;
 pub mod tls;
+#[cfg(iroh_verif)]
+pub mod verif;
 
 pub use crate::{
     key_cache::KeyCache,
